@@ -871,7 +871,8 @@ def run(ctx: Ctx):
     same_delay += [("samesite", f"flag|{ps}|{cs}|{'in' if j % 2 else 'body'}", t, r)
                    for j, (ps, cs) in enumerate(same_sites[:4]) for (t, r) in ((0, 1), (1, 0), (2, 2))]
     DWG, DWR = 2, 4
-    wide = [c for c in cfgs if has_payload(c) and c[0] in ("mbox", "same")]
+    # thorough: separate designs with 4-bit payloads for the random schedules; quick reuses the 2-bit ones
+    wide = [] if ctx.quick else [c for c in cfgs if has_payload(c) and c[0] in ("mbox", "same")]
     srcs = [(make_source(c, DWG), "W") for c in cfgs + same_delay] + [(make_source(c, DWR), "W") for c in wide]
     import time
     t0 = time.time()
